@@ -78,7 +78,10 @@ def make_case(rng, i, tier):
             if ok and all(n[2] + n[3] <= trial["total"] or stratum == "B" for t in trial["tracks"] for n in t["notes"]):
                 trial["info"] = info
                 piece = trial
-    return {"cfg": cfg, "piece": piece, "stratum": stratum}
+    # every ninth case: the tokeniser instance is first handed something it rejects (it raises); what the rejected call leaves behind
+    # on the instance must not reach the legal round trip that follows
+    return {"cfg": cfg, "piece": piece, "stratum": stratum,
+            "warmup": ["offgrid", "bad_pitch", "wrong_count", "detok_garbage", "encode_unknown"][(i // 9) % 5] if i % 9 == 2 else None}
 
 
 def classify(f, case):
@@ -113,6 +116,8 @@ def run(case, ctx):
         LOG.n("c01.piece_needing_non_greedy_rests")
     shape = (st, "".join("1" if x else "0" for x in cfg["flags"]), cfg["tracks"], cfg["bins"], len(piece["ts"]))
     src_ts = [(t, (n, d)) for (t, n, d) in piece["ts"]]
+    if case.get("warmup") and st != "V":
+        _rejected_first(tok, seqs, cfg, case["warmup"])
     f2, res = compare_roundtrip(tok, seqs, src_ts, info=piece.get("info"))
     fails += f2
     if res is None:
@@ -127,6 +132,40 @@ def run(case, ctx):
     crossing = any(any(a < b < c for b in barlines) for a, c in zip([0] + onsets, onsets + [D]))
     return {"nontrivial": nn >= 2 and (crossing or sigchange), "fails": fails, "shape": shape,
             "observed": {"tokens": len(toks), "notes": nn, "bars": len(grid), "duration": (D, Dout), "first_tokens": toks[:8]}}
+
+
+def _rejected_first(tok, seqs, cfg, kind):
+    """one call on `tok` that the tokeniser is expected to reject"""
+    from vmon.monitors import LOG
+    from scoda.elements.message import Message
+    from scoda.enumerations.message_type import MessageType as MT
+    from scoda.sequences.sequence import Sequence
+    try:
+        cps = [s.copy() for s in seqs]
+        if kind == "offgrid":
+            # every onset of track 0 one tick late: off every step grid unless the configuration has step 1
+            sh = Sequence()
+            sh.pad(1)
+            sh.concatenate([cps[0]])
+            cps[0] = sh
+            tok.tokenise(cps)
+        elif kind == "bad_pitch":
+            lo, hi = cfg["pitch"]
+            badp = hi + 1 if hi < 127 else lo - 1
+            D = max(obs(s)["dur"] for s in seqs)
+            chn = next((m.channel for m in cps[0].abs._messages if m.message_type == MT.NOTE_ON), 0)
+            cps[0].add_absolute_message(Message(message_type=MT.NOTE_ON, channel=chn, note=max(0, badp), velocity=64, time=max(0, D - 1)))
+            cps[0].add_absolute_message(Message(message_type=MT.NOTE_OFF, channel=chn, note=max(0, badp), time=max(1, D)))
+            tok.tokenise(cps)
+        elif kind == "wrong_count":
+            tok.tokenise(cps + [cps[0].copy()])
+        elif kind == "detok_garbage":
+            tok.detokenise(["bar", "no_such_token", "rst_1x"])
+        else:
+            tok.encode(["bar", "no_such_token"])
+        LOG.n("c01.rejected_first.accepted." + kind)
+    except Exception:
+        LOG.n("c01.rejected_first.raised." + kind)
 
 
 def compare_roundtrip(tok, seqs, src_ts, info=None):
